@@ -1,11 +1,11 @@
 #!/bin/bash
 # runs the quick tier of the given checks for several seeds (soundness on the unchanged tree); prints one line per run
 cd "$(dirname "$0")/../.."
-CHECKS=${CHECKS:-"C01 C02 C03 C04 C05 C06 C10 C11 C13 C17 C19 C20"}
+CHECKS=${CHECKS:-"C01 C02 C03 C04 C05 C06 C07 C08 C09 C10 C11 C12 C13 C14 C15 C16 C17 C19 C20"}
 SEEDS=${SEEDS:-"2 3 4 5"}
 TIER=${TIER:-quick}
 for s in $SEEDS; do for c in $CHECKS; do
   out=$(VERIF_SEED=$s ./tools/check $c --tier $TIER 2>&1); rc=$?
-  echo "seed=$s check=$c tier=$TIER rc=$rc $(echo "$out" | grep -c VIOLATION) violations; $(echo "$out" | grep 'VIOLATION\|CHECK-ERROR\|KNOWN' | head -2 | cut -c1-300)"
+  echo "seed=$s check=$c tier=$TIER rc=$rc $(date +%H:%M) $(echo "$out" | grep -c VIOLATION) violations; $(echo "$out" | grep 'VIOLATION\|CHECK-ERROR\|KNOWN' | head -2 | cut -c1-300)"
 done; done
 echo SWEEPDONE
